@@ -72,7 +72,7 @@ META = {
                     ('src/geophires_x/GEOPHIRESv3.py', 'main')],
 }
 GENERATORS = (c10_tables.gen_fields, c10_tables.gen_labels)
-REQ = ['Model.ResultParser', 'Gen.C10Fields']
+REQ = ['Model.ResultParser', 'Model.ResultParserFast', 'Gen.C10Fields']
 TABLES = ('CT C10Fields.fields C10Fields.revenue_headers C10Fields.carbon_headers C10Fields.carbon_price_field '
           'C10Fields.ccus_legacy_name')
 TABLE_KEYS = [R.POWER, R.HEAT, R.EXT, R.REV, 'CARBON/CCUS', R.SDAC]
@@ -370,7 +370,8 @@ def full_term(it, res, with_csv=True):
     full_term.n = names
     raised = 'true' if res['raised'] else 'false'
     irep = R.impl_report_lit(res['result'], fields, names['carbon_name'], names['ccus_legacy_name'])
-    t = f'(let txt := {R.text_lit(it["text"])} in (check_report t txt {raised} ({irep})'
+    # check_report_fast = check_report (C10_indexed_check_sound): one index per line instead of one scan per field
+    t = f'(let txt := {R.text_lit(it["text"])} in (check_report_fast t txt {raised} ({irep})'
     if res['result'] is not None and with_csv:
         t += (f'\n ++ (if agree_csv (csv_all {R.cats_lit(res["result"])})\n   {R.csv_rows_lit(res["csv"])} then [] else [3000%nat])')
     return t + ')%list)'
